@@ -279,18 +279,24 @@ fn skip_basic_tag(
         ptr = rest;
     }
 
-    let ws = if let Some(rest) = ptr.strip_prefix('-') {
-        ptr = rest;
-        Whitespace::Remove
-    } else if let Some(rest) = ptr.strip_prefix('+') {
-        ptr = rest;
-        Whitespace::Preserve
+    // like in `tokenize_block_or_var` a `-` or `+` is a whitespace marker only if the
+    // block end follows it; a block end that itself begins with one of these characters
+    // (`-%>`) is otherwise found as such.
+    let (ws, ptr) = if let Some(rest) = ptr
+        .strip_prefix('-')
+        .and_then(|rest| rest.strip_prefix(block_end))
+    {
+        (Whitespace::Remove, rest)
+    } else if let Some(rest) = ptr
+        .strip_prefix('+')
+        .and_then(|rest| rest.strip_prefix(block_end))
+    {
+        (Whitespace::Preserve, rest)
     } else {
-        Whitespace::Default
+        (Whitespace::Default, some!(ptr.strip_prefix(block_end)))
     };
 
-    ptr.strip_prefix(block_end)
-        .map(|ptr| (block_str.len() - ptr.len(), ws))
+    Some((block_str.len() - ptr.len(), ws))
 }
 
 impl<'s> Tokenizer<'s> {
@@ -680,9 +686,16 @@ impl<'s> Tokenizer<'s> {
             StartMarker::Comment => {
                 if let Some(end) = memstr(&self.rest_bytes()[skip..], self.comment_end().as_bytes())
                 {
-                    let ws = Whitespace::from_byte(
-                        self.rest_bytes().get(end.saturating_sub(1) + skip).copied(),
-                    );
+                    // a `-` or `+` directly in front of the end delimiter is a whitespace
+                    // marker.  An empty comment body has no such byte (the marker of the start
+                    // side is part of `skip`); what follows then is the end delimiter itself,
+                    // which may begin with one of these characters (`-->`).
+                    let ws = match end.checked_sub(1) {
+                        Some(last) => {
+                            Whitespace::from_byte(self.rest_bytes().get(last + skip).copied())
+                        }
+                        None => Whitespace::Default,
+                    };
                     self.advance(end + skip + self.comment_end().len());
                     self.handle_tail_ws(ws);
                     Ok(ControlFlow::Continue(()))
